@@ -46,7 +46,60 @@ func (ex *Exec) tryIntrinsic(fn *ssa.Function, args []Val) (Val, bool) {
 			}
 		}
 	}
+	// generated protobuf (Un)Marshal methods use the same typed-blob representation as the codec
+	if r, ok := ex.pbIntrinsic(fn, args); ok {
+		return r, true
+	}
 	// bound method closures / thunks are synthesized with bodies: let them run
+	return nil, false
+}
+
+func (ex *Exec) pbIntrinsic(fn *ssa.Function, args []Val) (Val, bool) {
+	n := fn.Name()
+	if n != "Marshal" && n != "Unmarshal" {
+		return nil, false
+	}
+	recv := fn.Signature.Recv()
+	if recv == nil || len(args) == 0 {
+		return nil, false
+	}
+	if fn.Pos().IsValid() {
+		if f := ex.w.prog.Fset.Position(fn.Pos()).Filename; !strings.HasSuffix(f, ".pb.go") {
+			return nil, false
+		}
+	} else if fn.Synthetic == "" {
+		return nil, false
+	}
+	pt, ok := recv.Type().(*types.Pointer)
+	if !ok {
+		return nil, false
+	}
+	p, ok := args[0].(PtrV)
+	if !ok {
+		return nil, false
+	}
+	if p.C == nil {
+		ex.goPanic("nil pointer dereference (proto " + n + ")")
+	}
+	ex.res.Intrinsics["proto:"+pt.Elem().String()+"."+n]++
+	if n == "Marshal" && len(args) == 1 {
+		return TupleV{BlobV{V: ex.freeze(ex.load(p)), Typ: recv.Type()}, IfaceV{}}, true
+	}
+	if n == "Unmarshal" && len(args) == 2 {
+		switch b := args[1].(type) {
+		case BlobV:
+			if !types.Identical(b.Typ, recv.Type()) {
+				ex.unmodelled(fmt.Sprintf("proto unmarshal type confusion: stored %s read as %s", b.Typ, recv.Type()))
+			}
+			ex.store(p, ex.thaw(b.V))
+			return IfaceV{}, true
+		case SliceV:
+			if b.Nil || b.Len == 0 {
+				return IfaceV{}, true
+			}
+		}
+		ex.unmodelled("proto Unmarshal of raw bytes")
+	}
 	return nil, false
 }
 
